@@ -15,8 +15,9 @@ import (
 )
 
 // Real sockets (thorough tier): two hosts built by libp2p.New on loopback TCP with a real resource
-// manager each. There is no exact quiescence here, so (a) the harness polls until identify's push has
-// arrived before it fixes the opener's knowledge, (b) scope counts taken while the streams are open are
+// manager each. There is no exact quiescence here, so (a) the harness polls (bounded, best effort) until
+// identify's push has arrived before it fixes the opener's knowledge, and the oracle accepts what any
+// knowledge state a late push could produce allows, (b) scope counts taken while the streams are open are
 // LOWER bounds (a stream whose handler has answered is certainly charged on both sides), (c) the release
 // after close is awaited by polling; a poll that does not converge is inconclusive, never a violation.
 
@@ -77,7 +78,7 @@ func (s *state) runTCPCase(c *caseSpec) (res caseResult, inconclusive string) {
 	}
 	lastNames := fmt.Sprint(sortedStrings(lis.h.Mux().Protocols()))
 	e := env{
-		afterChange: func(tab *table) {
+		afterChange: func(tab *table, wait bool) {
 			// identify pushes only when the set of registered names changed; wait until that push has
 			// arrived: the opener's view then equals the listener's registered names. (A push that is
 			// still in flight for another reason is covered by playRounds reading the knowledge twice.)
@@ -86,12 +87,18 @@ func (s *state) runTCPCase(c *caseSpec) (res caseResult, inconclusive string) {
 				return
 			}
 			lastNames = fmt.Sprint(want)
-			if !pollUntil(tcpPoll, func() bool {
+			if !wait {
+				return
+			}
+			// Not required for soundness (see playRounds): the receiver may apply two pushes out of order
+			// and then stays behind; the wait only makes the intended knowledge state the usual one.
+			if pollUntil(2*time.Second, func() bool {
 				got, _ := opener.ps.GetProtocols(lis.key.ID)
 				return fmt.Sprint(sortedStrings(got)) == fmt.Sprint(want)
-			}) && inconclusive == "" {
-				got, _ := opener.ps.GetProtocols(lis.key.ID)
-				inconclusive = fmt.Sprintf("identify push not observed: opener knows %v, listener has %v", sortedStrings(got), want)
+			}) {
+				s.r.Count("tcp_identify_push_observed", 1)
+			} else {
+				s.r.Count("tcp_identify_push_not_observed_in_2s", 1)
 			}
 		},
 		afterOpens: func() {},
